@@ -83,6 +83,19 @@ class EvalInterp(ArrInterp):
                 inv = bool(kwargs.get("invert", False))
                 return BoolVec([(x in keys) != inv for x in args[0].items])
             return Unknown("isin of label vector")
+        # function forms on the (concrete) label / truth vectors
+        if name in ("numpy.asarray", "numpy.array", "numpy.atleast_1d", "numpy.sort") and len(args) == 1 and isinstance(args[0], (LabelVec, BoolVec)) and not (set(kwargs) - {"dtype"}) and kwargs.get("dtype") is None:
+            return args[0]
+        if name in ("numpy.any", "numpy.all", "numpy.sum", "numpy.count_nonzero") and len(args) == 1 and isinstance(args[0], BoolVec) and not kwargs:
+            it_ = args[0].items
+            return any(it_) if name.endswith("any") else all(it_) if name.endswith("all") else sum(bool(x) for x in it_)
+        if name in ("numpy.argmax", "numpy.argmin") and len(args) == 1 and isinstance(args[0], BoolVec) and not kwargs and args[0].items:
+            it_ = [bool(x) for x in args[0].items]
+            return it_.index(max(it_)) if name.endswith("argmax") else it_.index(min(it_))
+        if name in ("numpy.logical_not", "numpy.invert") and len(args) == 1 and isinstance(args[0], BoolVec) and not kwargs:
+            return BoolVec([not x for x in args[0].items])
+        if name in ("numpy.flatnonzero",) and len(args) == 1 and isinstance(args[0], BoolVec):
+            return LabelVec([i for i, x in enumerate(args[0].items) if x], "idx")
         if name in ("numpy.setdiff1d",) and len(args) == 2 and isinstance(args[0], LabelVec):
             other = args[1].items if isinstance(args[1], LabelVec) else (args[1].value if hasattr(args[1], "value") else args[1])
             if isinstance(other, (list, tuple, set)):
